@@ -75,10 +75,23 @@ TransformsFor(d) ==
    {TD("homog", ClsOfKey(k), FALSE, T[k], <<>>, <<>>) : k \in DOMAIN T}
    \cup {TD("homog", ClsOfKey(k), TRUE, T[k], <<>>, <<>>) : k \in AlignKeys}
    \cup {TD("chain", "Chain", FALSE, T["rotation"], T["affine"], <<>>), TD("chain", "Chain", FALSE, T["homog"], T["translation"], <<>>)}
-   \cup (IF d = 3 THEN {TD("withdims", "WithDims", FALSE, <<>>, <<>>, <<0, 2>>), TD("withdims", "WithDims", FALSE, <<>>, <<>>, <<2, 1>>)}
+   \* a plain Homogeneous may change the dimension: (d_out + 1) x (d_in + 1) matrices (a projection 3-D -> 2-D, an embedding 2-D -> 3-D)
+   \cup (IF d = 3 THEN {TD("rect", "Homogeneous", FALSE, << <<R(1),R(0),Q(1,2),R(1)>>, <<R(0),R(2),R(-1),R(0)>>, <<R(0),R(0),R(0),R(1)>> >>, <<>>, <<>>),
+                        TD("rect", "Homogeneous", FALSE, << <<R(1),R(1),R(0),R(0)>>, <<R(0),R(1),R(2),R(-1)>>, <<Q(1,10),R(0),R(0),R(1)>> >>, <<>>, <<>>)}
+         ELSE {TD("rect", "Homogeneous", FALSE, << <<R(1),R(0),R(0)>>, <<R(0),R(1),R(1)>>, <<R(1),R(1),R(2)>>, <<R(0),R(0),R(1)>> >>, <<>>, <<>>)})
+   \* dimension slicing: the kept dimensions as an index list, as a boolean mask (increasing lists only), as a slice (contiguous lists only)
+   \cup (IF d = 3 THEN {TD("withdims", "WithDims", FALSE, <<>>, <<>>, <<0, 2>>), TD("withdims", "WithDims", FALSE, <<>>, <<>>, <<2, 1>>),
+                        TD("withdims_mask", "WithDims", FALSE, <<>>, <<>>, <<0, 2>>), TD("withdims_mask", "WithDims", FALSE, <<>>, <<>>, <<1, 2>>),
+                        TD("withdims_slice", "WithDims", FALSE, <<>>, <<>>, <<0, 1>>), TD("withdims_slice", "WithDims", FALSE, <<>>, <<>>, <<1, 2>>)}
          ELSE {TD("pwa", "PiecewiseAffine", FALSE, <<>>, <<>>, <<>>), TD("tps", "ThinPlateSplines", FALSE, <<>>, <<>>, <<>>)})
 \* exact image of a point sequence; "none" (empty) when the map is an uninterpreted symbol (tps) or specified in Warps.tla (pwa)
+ApplyRect(M, pp) == LET nr == Len(M) nc == Len(M[1])
+                        hp == [k \in 1..nc |-> IF k < nc THEN pp[k] ELSE O1]
+                        row(i) == LET t(k) == RMul(M[i][k], hp[k]) IN RSum(t, 1, nc) IN
+                    [i \in 1..(nr - 1) |-> RMul(row(i), RInv(row(nr)))]
 MapPts(t, P) == CASE t.kind = "homog" -> ApplyPts(t.M, P)
+                  [] t.kind = "rect" -> [i \in 1..Len(P) |-> ApplyRect(t.M, P[i])]
+                  [] t.kind \in {"withdims_mask", "withdims_slice"} -> [i \in 1..Len(P) |-> [k \in 1..Len(t.dims) |-> P[i][t.dims[k] + 1]]]
                   [] t.kind = "chain" -> ApplyPts(t.M2, ApplyPts(t.M, P))
                   [] t.kind = "withdims" -> [i \in 1..Len(P) |-> [k \in 1..Len(t.dims) |-> P[i][t.dims[k] + 1]]]
                   [] OTHER -> <<>>
